@@ -82,6 +82,71 @@ pub fn line_count(text: &str) -> usize {
     text.split('\n').count() + 1
 }
 
+
+/// `note_in` term: reader output of one note (input of the model) + table oracle
+pub fn note_in_term(name: &str, text: &str, graph: Option<&Graph>, options: &MarkdownOptions) -> String {
+    let doc = catch_unwind(AssertUnwindSafe(|| MarkdownReader::new().document(text)));
+    let (meta, blocks) = match doc {
+        Ok(d) => (d.metadata.clone(), Ok(dump::dblocks(&d.blocks))),
+        Err(e) => (None, Err(panic_msg(e))),
+    };
+    let tables = match graph {
+        Some(g) => tables_of(g, &Key::from_file_name(name), options),
+        None => vec![],
+    };
+    gapp(
+        "NI",
+        &[gstr(name), gopt(meta.map(|m| gstr(&m))), gres(blocks), glist(&tables.iter().map(|t| gstr(t)).collect::<Vec<_>>())],
+    )
+}
+
+/// `note_obs` term: everything observed about one note of a graph
+pub fn note_obs_term(graph: &Graph, key: &Key, text: &str, options: &MarkdownOptions) -> String {
+    let key = key.clone();
+    let tree = catch_unwind(AssertUnwindSafe(|| (&*graph).collect(&key))).map(|t| dump::tree(&t)).map_err(panic_msg);
+    let text1 = catch_unwind(AssertUnwindSafe(|| graph.to_markdown(&key))).map_err(panic_msg);
+    let lines = line_count(text);
+    let mut map = vec![];
+    for line in 0..lines {
+        let id = catch_unwind(AssertUnwindSafe(|| (&*graph).get_node_id_at(&key, line))).unwrap_or(None);
+        map.push(gopt(id.map(gn)));
+    }
+    // re-read of the formatted text, and the second formatting (update_key in the same library)
+    let (reread, text2, tables2) = match &text1 {
+        Ok(t1) => {
+            let rr = catch_unwind(AssertUnwindSafe(|| MarkdownReader::new().document(t1)));
+            let rr_blocks = match rr {
+                Ok(d) => Ok(format!("({}, {})", gopt(d.metadata.clone().map(|m| gstr(&m))), dump::dblocks(&d.blocks))),
+                Err(e) => Err(panic_msg(e)),
+            };
+            let second = catch_unwind(AssertUnwindSafe(|| {
+                let mut g2 = graph.clone();
+                g2.update_key(key.clone(), t1);
+                let t2 = g2.to_markdown(&key);
+                let tb = tables_of(&g2, &key, &options);
+                (t2, tb)
+            }));
+            match second {
+                Ok((t2, tb)) => (rr_blocks, Ok(gstr(&t2)), tb),
+                Err(e) => (rr_blocks, Err(panic_msg(e)), vec![]),
+            }
+        }
+        Err(_) => (Err("no text".to_string()), Err("no text".to_string()), vec![]),
+    };
+    gapp(
+        "NO",
+        &[
+            gstr(&key.to_string()),
+            gres(tree),
+            gres(text1.map(|t| gstr(&t))),
+            glist(&map),
+            gres(reread),
+            gres(text2),
+            glist(&tables2.iter().map(|t| gstr(t)).collect::<Vec<_>>()),
+        ],
+    )
+}
+
 /// Gallina `libcase` for the JSON input {"ext":..., "notes":[[name,text],...]}
 pub fn execute(v: &Value) -> String {
     let ext = v["ext"].as_str().unwrap_or("");
@@ -97,19 +162,7 @@ pub fn execute(v: &Value) -> String {
 
     let mut notes_in = vec![];
     for (name, text) in &sorted {
-        let doc = catch_unwind(AssertUnwindSafe(|| MarkdownReader::new().document(text)));
-        let (meta, blocks) = match doc {
-            Ok(d) => (d.metadata.clone(), Ok(dump::dblocks(&d.blocks))),
-            Err(e) => (None, Err(panic_msg(e))),
-        };
-        let tables = match &imported {
-            Ok(g) => tables_of(g, &Key::from_file_name(name), &options),
-            Err(_) => vec![],
-        };
-        notes_in.push(gapp(
-            "NI",
-            &[gstr(name), gopt(meta.map(|m| gstr(&m))), gres(blocks), glist(&tables.iter().map(|t| gstr(t)).collect::<Vec<_>>())],
-        ));
+        notes_in.push(note_in_term(name, text, imported.as_ref().ok(), &options));
     }
 
     let (arena, titles, notes_obs) = match &imported {
@@ -121,48 +174,7 @@ pub fn execute(v: &Value) -> String {
             for (name, text) in &sorted {
                 let key = Key::from_file_name(name);
                 titles.push(gpair(&gstr(&key.to_string()), &gopt(graph.get_key_title(&key).map(|t| gstr(&t)))));
-                let tree = catch_unwind(AssertUnwindSafe(|| (&*graph).collect(&key))).map(|t| dump::tree(&t)).map_err(panic_msg);
-                let text1 = catch_unwind(AssertUnwindSafe(|| graph.to_markdown(&key))).map_err(panic_msg);
-                let lines = line_count(text);
-                let mut map = vec![];
-                for line in 0..lines {
-                    let id = catch_unwind(AssertUnwindSafe(|| (&*graph).get_node_id_at(&key, line))).unwrap_or(None);
-                    map.push(gopt(id.map(gn)));
-                }
-                // re-read of the formatted text, and the second formatting (update_key in the same library)
-                let (reread, text2, tables2) = match &text1 {
-                    Ok(t1) => {
-                        let rr = catch_unwind(AssertUnwindSafe(|| MarkdownReader::new().document(t1)));
-                        let rr_blocks = match rr {
-                            Ok(d) => Ok(format!("({}, {})", gopt(d.metadata.clone().map(|m| gstr(&m))), dump::dblocks(&d.blocks))),
-                            Err(e) => Err(panic_msg(e)),
-                        };
-                        let second = catch_unwind(AssertUnwindSafe(|| {
-                            let mut g2 = graph.clone();
-                            g2.update_key(key.clone(), t1);
-                            let t2 = g2.to_markdown(&key);
-                            let tb = tables_of(&g2, &key, &options);
-                            (t2, tb)
-                        }));
-                        match second {
-                            Ok((t2, tb)) => (rr_blocks, Ok(gstr(&t2)), tb),
-                            Err(e) => (rr_blocks, Err(panic_msg(e)), vec![]),
-                        }
-                    }
-                    Err(_) => (Err("no text".to_string()), Err("no text".to_string()), vec![]),
-                };
-                obs.push(gapp(
-                    "NO",
-                    &[
-                        gstr(&key.to_string()),
-                        gres(tree),
-                        gres(text1.map(|t| gstr(&t))),
-                        glist(&map),
-                        gres(reread),
-                        gres(text2),
-                        glist(&tables2.iter().map(|t| gstr(t)).collect::<Vec<_>>()),
-                    ],
-                ));
+                obs.push(note_obs_term(graph, &key, text, &options));
             }
             (arena, glist(&titles), glist(&obs))
         }
